@@ -3,6 +3,7 @@ package keys
 import (
 	"bytes"
 	"crypto/ecdsa"
+	"crypto/sha256"
 	"encoding/base64"
 	"encoding/json"
 	"fmt"
@@ -484,13 +485,14 @@ func (k PublicKeyBTCEC) Address() Address {
 	return p.Address().Bytes()
 }
 
-// VerifyBytes checks a signature made by PrivateKeyBTCEC.Sign (DER encoded, over msg as given)
+// VerifyBytes checks a signature made by PrivateKeyBTCEC.Sign (DER encoded, over the SHA-256 of msg)
 func (k PublicKeyBTCEC) VerifyBytes(msg []byte, sig []byte) bool {
 	s, err := btcec.ParseDERSignature(sig, btcec.S256())
 	if err != nil {
 		return false
 	}
-	return s.Verify(msg, &k.key)
+	hash := sha256.Sum256(msg)
+	return s.Verify(hash[:], &k.key)
 }
 
 func (k PublicKeyBTCEC) Equals(PubkeyBTCEC PublicKey) bool {
@@ -509,7 +511,9 @@ func (k PrivateKeyBTCEC) Bytes() []byte {
 
 func (k PrivateKeyBTCEC) Sign(msg []byte) ([]byte, error) {
 	priv, _ := btcec.PrivKeyFromBytes(btcec.S256(), k.Bytes())
-	s, err := priv.Sign(msg)
+	// ECDSA signs a digest: the message as it is would be cut to its first 32 bytes
+	hash := sha256.Sum256(msg)
+	s, err := priv.Sign(hash[:])
 	if err != nil {
 		return nil, err
 	}
